@@ -132,14 +132,23 @@ class C08Session(Session):
                 data["kw_" + k] = copy.deepcopy(v)
         return data
 
+    @staticmethod
+    def _bind(world, op, data):
+        """caller data + the caller's source/observer containers bound to the objects of `world`"""
+        d = dict(data)
+        d["obs_list"] = [(world[it] if isinstance(it, int) else data[f"obs{n}"])
+                         for n, it in enumerate(op.get("observers", []))]
+        d["src_list"] = [world[i] for i in op.get("sources", [])]
+        return d
+
     def _invoke(self, world, op, data):
         import magpylib as magpy
 
         field = op["field"]
         name = "get" + field
-        obs = []
-        for n, item in enumerate(op.get("observers", [])):
-            obs.append(world[item] if isinstance(item, int) else data[f"obs{n}"])
+        # the caller's containers (lists of sources / observers) are caller-owned inputs too: they are
+        # created once per op, kept in `data` (so they are part of every snapshot) and reused
+        obs = data["obs_list"]
         via = op["via"]
         kw = {}
         for k in ("squeeze", "pixel_agg", "output"):
@@ -149,7 +158,7 @@ class C08Session(Session):
             dkw = {k[3:]: v for k, v in data.items() if k.startswith("kw_")}
             return getattr(magpy, name)(op["dict_cls"], obs[0] if obs else None, squeeze=op.get("squeeze", True),
                                         in_out=op.get("in_out", "auto"), **dkw)
-        srcs = [world[i] for i in op["sources"]]
+        srcs = data["src_list"]
         if via == "top":
             s_in = srcs[0] if (len(srcs) == 1 and op.get("bare_src")) else srcs
             o_in = obs[0] if (len(obs) == 1 and op.get("bare_obs", True)) else obs
@@ -225,7 +234,7 @@ class C08Session(Session):
         tw = World(self.spec)
         for op in self.history:
             if op["op"] == "field":
-                d = self._caller_data(op)
+                d = self._bind(tw, op, self._caller_data(op))
                 self._call(tw, op, d)
             else:
                 self._plain(tw, op)
@@ -317,7 +326,7 @@ class C08Session(Session):
     def _field(self, op):
         world = self.world
         faults.INDEX_OF[0] = world.index
-        data = self._caller_data(op)
+        data = self._bind(world, op, self._caller_data(op))
         pre = snap_world(world, extra=data)
         # 1. baseline, fault free, recording reachable sites
         faults.HITS.clear()
@@ -357,9 +366,11 @@ class C08Session(Session):
         group_order = [k for s, k in hits if s == "group.eval"]
         for var in self._variants(op, hits, calls):
             w = world
+            data_main = data
             if self.cfg.get("twin_mode") == "rebuild":
                 w = self._rebuild()
                 faults.INDEX_OF[0] = w.index
+                data = self._bind(w, op, data_main)
                 pre_w = snap_world(w, extra=data)
                 if pre_w != pre:
                     raise HarnessError("rebuilt twin differs from the main world: " + str(first_diff(pre, pre_w)))
@@ -405,6 +416,7 @@ class C08Session(Session):
                 raise
             finally:
                 faults.INDEX_OF[0] = world.index
+                data = data_main
 
     def epilogue(self):
         """fault-free: every fully initialised source still computes, twice the same"""
@@ -414,7 +426,7 @@ class C08Session(Session):
                 continue
             op = {"op": "field", "field": "B", "via": "src", "sources": [i],
                   "observers": [{"arr": [0.125, 0.25, 0.375]}]}
-            d = self._caller_data(op)
+            d = self._bind(w, op, self._caller_data(op))
             a = self._call(w, op, d)
             b = self._call(w, op, d)
             self.log.add("epi", i, a[0], sdigest(a[1]))
@@ -431,7 +443,7 @@ class C08Session(Session):
 class Sim:
     id = ID
     level = LEVEL
-    runs = {"quick": 1600}
+    runs = {"quick": 3000}
     budget = {"thorough": 600}
     chunk = {"quick": 25, "thorough": 25}
     cross_n = 16
